@@ -300,7 +300,7 @@ def job_hsv(t):
     c, w = FT[t]; E = 23 if w == 32 else 52
     eps = RQ(Fraction(1, 2 ** E)); tol = RQ(Fraction(1, 2 ** (E - 2))); k1 = RQ(Fraction(1, 2 ** (E - 8))); k2 = RQ(Fraction(1, 2 ** (E - 8)))
     def run(S):
-        tm = S.cap(90, 300)
+        tm = S.cap(200, 600)
         cube = lambda i: [z3.And(x >= 0, x <= 1) for x in i[0]]
         nongrey = lambda i: cube(i) + [rmax3(i[0]) - rmin3(i[0]) > 0]
         def hsv_spec(i, o):
@@ -340,7 +340,7 @@ def job_hsv(t):
                     ('hue-on-circle', z3.Or(d * s * v <= bound, (360 - d) * s * v <= bound))]
         check_by_sector(S, 'rgb_rt_' + t, rt2_spec, lambda i: [i[0][0] >= 0, i[0][0] < 360, i[0][1] > eps, i[0][1] <= 1, i[0][2] > eps, i[0][2] <= 1], range(0, 7), name='c19.rgb_rt_' + t, timeout=tm,
                         bounds='hue in [0,360), saturation and value in (epsilon,1]; circular hue distance * s * v <= 2^-%d * (s * v + 1)' % (E - 8),
-                        mutant=lambda i, o: [('m', RGoal('le', rabs(R(o[0])[0] - i[0][0]) * i[0][1] * i[0][2], k2))])
+                        mutant=lambda i, o: [('m', RGoal('le', rabs(R(o[0])[0] - i[0][0] - 60) * i[0][1] * i[0][2], k2))])
     return run
 def _hue360(res, k):
     h = res.outs[0][0]; return z3.fpEQ(h.fp, z3.FPVal(360.0, h.fp.sort()))
@@ -367,7 +367,7 @@ def job_hsv_fp(t):
         # the recorded witness of KF-C19-hsv-hue-360 (rounding-erased the hue is < 360 for every non-grey colour: job hsv_*); the bit-precise sweep of the whole cube needs minutes -> thorough tier
         wit = [[z3.BitVecVal(float_to_bits(v, w), w) for v in (1.0, 0.0, 1e-9 if w == 32 else 1e-18)]]
         S.check_fn(U, 'hsv_' + t, hue_lt, nongrey, ins=wit, validate=0, witness=False, side=False, timeout=tm, name='c19.hsv_%s.fp-witness' % t, known=['KF-C19-hsv-hue-360'], bounds='bit-precise: the colour (1, 0, %s)' % ('1e-9' if w == 32 else '1e-18'))
-        S.check_fn(U, 'hsv_' + t, lambda i, o: [('saturation>=0', z3.fpGEQ(o[0][1].fp, K(0.0))), ('saturation<=1', z3.fpLEQ(o[0][1].fp, K(1.0))), ('value>=components', z3.And(*[z3.fpGEQ(o[0][2].fp, fpof(x)) for x in i[0]]))], incube, timeout=tm,
+        S.check_fn(U, 'hsv_' + t, lambda i, o: [('saturation>=0', z3.fpGEQ(o[0][1].fp, K(0.0))), ('saturation<=1', z3.fpLEQ(o[0][1].fp, K(1.0))), ('value>=components', z3.And(*[z3.fpGEQ(o[0][2].fp, fpof(x)) for x in i[0]]))], incube, timeout=tm, solver='cvc5',
                    name='c19.hsv_%s.fp-sv' % t, side=False, bounds='bit-precise: all %s colours of the cube' % c)
         # grey levels survive the round trip bit for bit (their hue is 0/0 = NaN in between, which rgbColor never looks at)
         if w == 32 or not S.quick:
